@@ -393,7 +393,7 @@ fn eval_axis_node_test(
             expr::AxisName::Following => following(node),
             expr::AxisName::FollowingSibling => following_sibling(node),
             expr::AxisName::Namespace => namespace(node)?,
-            expr::AxisName::Parent => node.parent_node().map(|p| vec![p]).unwrap_or_default(),
+            expr::AxisName::Parent => parent(&node).map(|p| vec![p]).unwrap_or_default(),
             expr::AxisName::Preceding => preceding(node),
             expr::AxisName::PrecedingSibling => preceding_sibling(node),
             expr::AxisName::Current => vec![node],
@@ -526,13 +526,34 @@ fn eval_func_expr(
 
 // -----------------------------------------------------------------------------------------------
 
+/// The parent of a node in the XPath data model: the element of an attribute node, the DOM parent of any other node.
+fn parent(node: &dom::XmlNode) -> Option<dom::XmlNode> {
+    match node {
+        dom::XmlNode::Attribute(v) => v.owner_element().map(|e| e.as_node()),
+        _ => node.parent_node(),
+    }
+}
+
+/// The children of a node in the XPath data model: an attribute node has none (its value is not a node), and the
+/// document type declaration is not a node.
+fn children(node: &dom::XmlNode) -> Vec<dom::XmlNode> {
+    match node {
+        dom::XmlNode::Attribute(_) | dom::XmlNode::Namespace(_) => vec![],
+        _ => node
+            .child_nodes()
+            .iter()
+            .filter(|v| v.node_type() != dom::NodeType::DocumentType)
+            .collect(),
+    }
+}
+
 fn ancestor(node: dom::XmlNode) -> Vec<dom::XmlNode> {
     let mut nodes = vec![];
 
-    let mut parent = node.parent_node();
-    while let Some(p) = parent {
+    let mut next = parent(&node);
+    while let Some(p) = next {
         nodes.push(p.clone());
-        parent = p.parent_node();
+        next = parent(&p);
     }
 
     nodes
@@ -557,19 +578,13 @@ fn attributes(node: dom::XmlNode) -> Vec<dom::XmlNode> {
 }
 
 fn child(node: dom::XmlNode) -> Vec<dom::XmlNode> {
-    let mut nodes = vec![];
-
-    for c in node.child_nodes().iter() {
-        nodes.push(c.clone());
-    }
-
-    nodes
+    children(&node)
 }
 
 fn descendant(node: dom::XmlNode) -> Vec<dom::XmlNode> {
     let mut nodes = vec![];
 
-    for child in node.child_nodes().iter() {
+    for child in children(&node) {
         nodes.push(child.clone());
 
         let mut desc = descendant(child);
@@ -588,12 +603,19 @@ fn descendant_and_self(node: dom::XmlNode) -> Vec<dom::XmlNode> {
 fn following(node: dom::XmlNode) -> Vec<dom::XmlNode> {
     let mut nodes = vec![];
 
+    if let dom::XmlNode::Attribute(_) = node {
+        // an attribute comes before the children of its element: they follow it
+        if let Some(owner) = parent(&node) {
+            nodes.append(&mut descendant(owner));
+        }
+    }
+
     for n in following_sibling(node.clone()) {
         nodes.append(&mut descendant_and_self(n));
     }
 
     // whatever follows an ancestor follows the node as well
-    if let Some(parent) = node.parent_node() {
+    if let Some(parent) = parent(&node) {
         nodes.append(&mut following(parent));
     }
 
@@ -605,7 +627,10 @@ fn following_sibling(node: dom::XmlNode) -> Vec<dom::XmlNode> {
 
     let mut next = node.next_sibling();
     while let Some(n) = next {
-        nodes.push(n.clone());
+        // (the document type declaration is not a node)
+        if n.node_type() != dom::NodeType::DocumentType {
+            nodes.push(n.clone());
+        }
         next = n.next_sibling();
     }
 
@@ -634,7 +659,7 @@ fn preceding(node: dom::XmlNode) -> Vec<dom::XmlNode> {
     }
 
     // whatever precedes an ancestor (the ancestors themselves excluded) precedes the node as well
-    if let Some(parent) = node.parent_node() {
+    if let Some(parent) = parent(&node) {
         nodes.append(&mut preceding(parent));
     }
 
@@ -646,7 +671,10 @@ fn preceding_sibling(node: dom::XmlNode) -> Vec<dom::XmlNode> {
 
     let mut prev = node.previous_sibling();
     while let Some(p) = prev {
-        nodes.push(p.clone());
+        // (the document type declaration is not a node)
+        if p.node_type() != dom::NodeType::DocumentType {
+            nodes.push(p.clone());
+        }
         prev = p.previous_sibling();
     }
 
